@@ -1,7 +1,9 @@
 (* Property C17 - the continuous recorder tiles the stream; a test recording is 21 consecutive
    frames. *)
 From Coq Require Import List ZArith Bool String.
-From TR Require Import model.Ring model.Processor model.ProcAbs model.ProcSpec proofs.ProcS1217 proofs.ExtractedFacts.
+From TR Require Import model.Ring model.Processor model.ProcAbs model.ProcSpec proofs.ProcS1217.
+(* constants and wiring read from the Go sources on every run *)
+From TR Require Import proofs.FactsProc.
 Import ListNotations.
 Open Scope Z_scope.
 
